@@ -688,6 +688,10 @@ fn flatten_module<'a>(
         namespace.pop();
     }
     for (name, submod) in module.submodules.iter() {
+        // module names are path segments, the same rules apply as for function names
+        if !is_name_valid(name.as_ref()) {
+            return Err(CompilationErrorPayload::BadFunctionName(name.to_string()));
+        }
         namespace.push(name.as_ref());
         flatten_module(submod, recursion_limit, namespace, out)?;
         namespace.pop();
